@@ -90,6 +90,9 @@ pub fn profile_for(prop: &str, thorough: bool) -> Profile {
         "C06" => {
             mul(&mut w, &[CAT_ITER_OWNING, CAT_DRAIN, CAT_CLEAR, CAT_RETAIN, CAT_CLONE], 4);
             w[CAT_DROP] = 2;
+            mul(&mut w, &[CAT_TRY_RESERVE, CAT_RESERVE, CAT_SHRINK_TO], 2);
+            p.refuse_pct = 25;
+            p.natural_oom = true;
         }
         "C07" => {
             mul(&mut w, &[CAT_RESERVE, CAT_TRY_RESERVE, CAT_SHRINK_TO, CAT_SHRINK_FIT], 6);
@@ -140,6 +143,12 @@ pub struct GenState {
     pub two_caches: bool,
     pub refuse_pct: u32,
     pub natural_oom: bool,
+    /// next never-used key id (FIFO-style workloads insert ever-new keys)
+    pub fresh_next: u32,
+    /// percent of insertions that use a never-used key
+    pub fresh_pct: u32,
+    /// FIFO churn: every insertion has the same size
+    pub fixed_sizes: bool,
 }
 
 const CAPS: [usize; 14] = [0, 1, 3, 4, 7, 8, 14, 15, 28, 29, 56, 57, 112, 113];
@@ -217,28 +226,50 @@ pub fn gen_config(rng: &mut Rng, prof: &Profile, overhead: usize) -> (Config, Ge
     // churn regime: medium-sized caches at (nearly) constant length with colliding hashers, long
     // histories: this is where tombstones build up and "growth" can shrink the table
     let churn = !large && rng.chance(1, 7);
-    let (universe, max_size, mode, steps, kheaps, vheaps) = if churn {
-        let k = 12 + rng.usize_below(60);
+    let mut fifo = false;
+    let (universe, max_size, mode, steps, kheaps, vheaps, ctor) = if churn {
+        fifo = rng.bool();
+        let k = if fifo { 16 + rng.usize_below(24) } else { 12 + rng.usize_below(60) };
         let c = rng.below(30) as usize;
-        let mode = match rng.below(6) {
-            0..=2 => HashMode::Const,
-            3 => HashMode::SameSlot,
-            4 => HashMode::Mod(2),
+        let mode = match rng.below(8) {
+            0..=1 => HashMode::Const,
+            2..=4 => HashMode::Ident,
+            5 => HashMode::SameSlot,
+            6 => HashMode::Mod(2),
             _ => mode,
         };
+        let mode = if fifo && rng.chance(2, 3) { HashMode::Ident } else { mode };
+        let quiet_capacity = fifo || rng.bool();
         for (i, w) in weights.iter_mut().enumerate() {
             if matches!(i, CAT_CLEAR | CAT_DRAIN | CAT_ITER_OWNING | CAT_DROP | CAT_SET_MAX | CAT_RETAIN) {
+                *w = if fifo { 0 } else { (*w).min(1) };
+            }
+            if quiet_capacity && matches!(i, CAT_RESERVE | CAT_TRY_RESERVE | CAT_SHRINK_TO | CAT_SHRINK_FIT | CAT_CLONE) {
+                *w = if fifo { 0 } else { (*w).min(1) };
+            }
+            if fifo && matches!(i, CAT_MUTATE | CAT_TRY_INSERT | CAT_REMOVE_LRU | CAT_REMOVE_MRU | CAT_REMOVE_ENTRY | CAT_GET_LRU) {
                 *w = (*w).min(1);
             }
         }
-        weights[CAT_INSERT] = weights[CAT_INSERT].max(30) * 2;
-        weights[CAT_REMOVE] = weights[CAT_REMOVE].max(5) * 2;
-        ((k as u32) * 2, k * (overhead + c) + if rng.bool() { 0 } else { usize::MAX / 2 }, mode, 150 + rng.usize_below(350), vec![0usize], vec![c])
+        weights[CAT_INSERT] = weights[CAT_INSERT].max(30) * if fifo { 8 } else { 2 };
+        weights[CAT_REMOVE] = if fifo { 2 } else { weights[CAT_REMOVE].max(5) * 2 };
+        // FIFO churn at exactly constant length: the limit holds k entries exactly, every fresh
+        // insertion evicts the oldest; the table starts 1..4 times larger than needed
+        let (ctor, steps) = if fifo {
+            let m = 1 + rng.usize_below(4);
+            let cap = crate::check::fresh_capacity(k * m);
+            (if rng.chance(3, 4) { Ctor::WithCapacityAndHasher(k * m) } else { Ctor::WithHasher }, k + 2 * cap + 40 + rng.usize_below(100))
+        } else {
+            (ctor, 150 + rng.usize_below(350))
+        };
+        let max = if fifo { k * (overhead + c) } else { k * (overhead + c) + if rng.bool() { 0 } else { usize::MAX / 2 } };
+        ((k as u32) * 2, max, mode, steps, vec![0usize], vec![c], ctor)
     } else {
-        (universe, max_size, mode, steps, kheaps, vheaps)
+        (universe, max_size, mode, steps, kheaps, vheaps, ctor)
     };
     let cfg = Config { ctor, mode, salt, max_size, universe, prefill: if large { prof.large_prefill } else { 0 }, prefill_vh: vheaps[0] };
-    let gs = GenState { kheaps, vheaps, weights, recent_gone: Vec::new(), two_caches, refuse_pct: prof.refuse_pct, natural_oom: prof.natural_oom };
+    let fresh_pct = if fifo { 100 } else if churn { *rng.pick(&[0u32, 50, 90, 100]) } else { *rng.pick(&[0u32, 0, 0, 5, 30]) };
+    let gs = GenState { kheaps, vheaps, weights, recent_gone: Vec::new(), two_caches, refuse_pct: prof.refuse_pct, natural_oom: prof.natural_oom, fresh_next: universe.max(1) + 1000, fresh_pct, fixed_sizes: fifo };
     (cfg, gs, steps)
 }
 
@@ -333,10 +364,15 @@ pub fn gen_op(rng: &mut Rng, gs: &mut GenState, cfg: &Config, pres: &[Option<Obs
     let uni = cfg.universe;
     let kind = match cat {
         CAT_INSERT | CAT_TRY_INSERT => {
-            let k = pick_key(rng, pre, uni, gs);
+            let k = if gs.fresh_pct > 0 && rng.chance(gs.fresh_pct as u64, 100) {
+                gs.fresh_next += 1;
+                gs.fresh_next
+            } else {
+                pick_key(rng, pre, uni, gs)
+            };
             let kh = *rng.pick(&gs.kheaps);
             let existing = pre.find(k);
-            let vh = pick_insert_vh(rng, pre, overhead, kh, existing, gs);
+            let vh = if gs.fixed_sizes && rng.chance(19, 20) { gs.vheaps[0] } else { pick_insert_vh(rng, pre, overhead, kh, existing, gs) };
             if cat == CAT_INSERT {
                 OpKind::Insert { k, kh, vh }
             } else {
